@@ -3,3 +3,83 @@ from impl_rag import run_history
 
 def history(case, d):
     return run_history(case, d, want_regen=False)
+
+
+def rodirs(case, d):
+    """the array directories are read-only for the (unprivileged) user while the files in them are
+    writable: nothing new can be created there.  An iterappend fails after completed subarrays; what
+    is left must be exactly those.  The append runs in a child process under uid 65534."""
+    import json
+    import os
+    import shutil
+    import subprocess
+    import sys
+    import tempfile
+    import numpy as np
+    import darr
+    from impl_rag import observe, read_keys, iter_keys
+    if os.geteuid() != 0:
+        return dict(skipped='needs root to switch to an unprivileged user')
+    base = tempfile.mkdtemp(prefix='verif_c10_ro_')
+    try:
+        os.chmod(base, 0o755)
+        path = os.path.join(base, 'ra.darr')
+        start = [np.array([1.0, 2.0]), np.array([3.0])]
+        darr.asraggedarray(path, start, accessmode='r+', **({'metadata': {'a': 1}} if case.get('meta') else {}))
+        for root, dirs, files in os.walk(base):
+            os.chown(root, 65534, 65534)
+            for f in files:
+                os.chown(os.path.join(root, f), 65534, 65534)
+                os.chmod(os.path.join(root, f), 0o644)
+        for sub in ('', 'values', 'indices'):
+            os.chmod(os.path.join(path, sub), 0o555)
+        def items():
+            yield np.array([4.0, 5.0])
+            yield np.array([6.0])
+            if case['fail'] == 'shape':
+                yield np.ones((2, 2))
+            elif case['fail'] == 'raise':
+                raise RuntimeError('iterable fails')
+        # (the interpreter itself lives under /root: the child is forked, not exec'ed)
+        rfd, wfd = os.pipe()
+        pid = os.fork()
+        if pid == 0:
+            try:
+                os.close(rfd)
+                os.setgid(65534)
+                os.setuid(65534)
+                try:
+                    ra = darr.RaggedArray(path, accessmode='r+')
+                    ra.iterappend(items())
+                    res = ['ok']
+                except Exception as e:
+                    res = ['exc', type(e).__name__, str(e)[:150]]
+                os.write(wfd, json.dumps(res).encode())
+            finally:
+                os._exit(0)
+        os.close(wfd)
+        data = b''
+        while True:
+            b = os.read(rfd, 65536)
+            if not b:
+                break
+            data += b
+        os.close(rfd)
+        os.waitpid(pid, 0)
+        try:
+            res = json.loads(data.decode())
+        except Exception:
+            return dict(child_failed=repr(data)[-600:])
+        for sub in ('', 'values', 'indices'):
+            os.chmod(os.path.join(path, sub), 0o755)
+        ref = start + [np.array([4.0, 5.0]), np.array([6.0])]
+        n = len(ref)
+        try:
+            fresh = darr.RaggedArray(path)
+        except Exception as e:
+            return dict(res=res, unopenable=f'{type(e).__name__}: {e}'[:300])
+        st = observe(fresh, path, ref, res, read_keys(n), iter_keys(n), want_regen=False)
+        st['litter'] = sorted(f for f in os.listdir(path) if f.endswith('.tmp'))
+        return st
+    finally:
+        shutil.rmtree(base, ignore_errors=True)
